@@ -139,6 +139,7 @@ func run(c *fw.Ctx) {
 	contents, nspell, views, bufs, maxHists := params(c.Thorough())
 	states := fsx.Reach(fsx.Mutators(contents), 2, maxHists)
 	alphabet := fsx.Alphabet(contents, nspell, views, true, bufs)
+	alphabet = append(alphabet, fsx.EscapingViewOps(contents)...)
 	reduced := fsx.Alphabet(contents, 1, [][]string{nil}, false, []int{64})
 	c.R.Info["model_states"] = len(states)
 	c.R.Info["alphabet"] = len(alphabet)
